@@ -2,7 +2,7 @@
    _create_bind, _create_alter_context, _process_bind_ack, and _client._process_bind_result.
    The authentication provider is a script of legs (token produced, complete afterwards);
    the server is a script of replies. The run records every PDU sent and every step() argument. *)
-From V Require Import Prelude.Base Prelude.PySlice gen.K_client gen.C_client.
+From V Require Import Prelude.Base Prelude.PySlice gen.K_client gen.C_client gen.C_rpc.
 
 Record leg := { leg_token : bytes; leg_complete : bool }.
 
@@ -33,6 +33,16 @@ Definition pop_server (s : st) : st :=
 
 Inductive expect := EBindAck | EAlterResp.
 
+(* PDU.unpack of a reply: ContextResult.unpack looks every result code up in ContextResultCode (Model/Bind.v context_result_unpack:
+   enum_lookup c_ContextResultCode_values), so an ack whose result vector holds a code outside the enum does not decode: ValueError,
+   raised while the reply is decoded, before any class check *)
+Definition result_code_ok (r : Z) : bool := existsb (Z.eqb r) c_ContextResultCode_values.
+Definition reply_decodes (r : reply) : bool :=
+  match r with
+  | RBindAck rs _ _ | RAlterResp rs _ _ => forallb result_code_ok rs
+  | _ => true
+  end.
+
 (* _send_pdu + _process_response on the next scripted reply: (results, flags, token) or the error *)
 Definition send_pdu (p : sent) (e : expect) (s : st) : res (list Z * Z * option bytes) * st :=
   let s1 := snoc_trace s p in
@@ -40,6 +50,7 @@ Definition send_pdu (p : sent) (e : expect) (s : st) : res (list Z * Z * option 
   | [] => (Raise EOFError, s1)
   | r :: _ =>
     let s2 := pop_server s1 in
+    if negb (reply_decodes r) then (Raise ValueError, s2) else
     match r, e with
     | RBindAck rs fl tk, EBindAck => (Ok (rs, fl, tk), s2)
     | RAlterResp rs fl tk, EAlterResp => (Ok (rs, fl, tk), s2)
